@@ -87,7 +87,21 @@ def build(sig, kind, annotated=False):
     mod = types.ModuleType('c18_generated_%d' % len(_CACHE))
     sys.modules[mod.__name__] = mod
     ns = mod.__dict__
-    if kind == 'class':
+    if kind == 'subclassed':
+      # a subclass of pg.Functor with fields and _call; the original callable is the function of the same parameters
+      # (a required field after one with a default is not a legal def: it gets a sentinel default that raises TypeError)
+      ns['pg'] = pg; ns['_REQ'] = object()
+      seen, ps, chk = False, [], []
+      for n, d in sig['pos']:
+        if d is not None: seen = True; ps.append('%s = %d' % (n, d))
+        elif seen: ps.append('%s = _REQ' % n); chk.append("  if %s is _REQ: raise TypeError('missing %s')\n" % (n, n))
+        else: ps.append(n)
+      exec('def f(%s):\n%s  return dict(locals())\n' % (', '.join(ps), ''.join(chk)), ns)
+      orig = ns['f']
+      body = ''.join('  %s: int%s\n' % (n, '' if d is None else ' = %d' % d) for n, d in sig['pos'])
+      exec('class S(pg.Functor):\n%s  def _call(self):\n    return dict(%s)\n' % (body, ', '.join('%s=self.%s' % (n, n) for n, _ in sig['pos'])), ns)
+      sym = ns['S']
+    elif kind == 'class':
       exec(cls_source(sig, annotated), ns)
       orig = ns['C']
       sym = pg.symbolize(orig, auto_typing=True) if annotated else pg.symbolize(orig)
@@ -451,6 +465,15 @@ def gen_functor_case(rng, sig, kind=None):
   c['deep'] = rng.random() < .5; c['json_str'] = rng.random() < .5
   return c
 
+def gen_subclassed_case(rng):
+  """A pg.Functor subclass: positional fields only, defaults anywhere, integer values."""
+  n = rng.randint(0, 3)
+  sig = dict(pos=[(POS_NAMES[i], 10 + i if rng.random() < .5 else None) for i in range(n)], varargs=None, kwonly=[], varkw=None)
+  c = gen_functor_case(rng, sig, kind='subclassed')
+  fix = lambda kv: [(k, v if isinstance(v, int) else 3) for k, v in kv]
+  c['ctor'] = (c['ctor'][0], fix(c['ctor'][1])); c['call'] = (c['call'][0], fix(c['call'][1])); c['lates'] = fix(c['lates'])
+  return c
+
 def gen_class_case(rng, sig):
   c = dict(kind='class', sig=sig, annotated=False)
   byname = bool(sig.get('posonly')) and rng.random() < .35
@@ -623,6 +646,8 @@ def fmt_call(c):
 def describe(case, with_call=True):
   is_cls = case['kind'] in ('class', 'subclass')
   src = fn_source(case['sig'], case.get('annotated')).split('\n')[0] if not is_cls else cls_source(case['sig'], case.get('annotated')).split('\n')[1].strip()
+  if case['kind'] == 'subclassed':
+    src = 'class S(pg.Functor) with fields (%s) and _call' % ', '.join(n + ('' if d is None else '=%d' % d) for n, d in case['sig']['pos'])
   if case['kind'] == 'subclass':
     src = 'subclass %s calling super().__init__(%s) of symbolized base %s, %s' % (src, base_call_text(case['base_sig']), cls_source(case['base_sig']).split('\n')[1].strip(), case['order'])
   s = '%s [%s] ctor%s' % (src, case['kind'], fmt_call(case['ctor']))
@@ -718,6 +743,13 @@ def run(ctx):
       ctx.hit('C18/signature/class/init-differs', 'inspect.signature of the symbolized class __init__ is %s, the class has %s' % (inspect.signature(X.__init__), inspect.signature(origc.__init__)),
               dict(op='signature', sig=sig, via='class', annotated=False))
 
+  # generated __init__ of pg.Functor subclasses, incl. a required field after one with a default (make_function then forces a default)
+  for _ in range(ctx.scale(40, 400)):
+    c0 = gen_subclassed_case(rng)
+    orig, S = build(c0['sig'], 'subclassed')
+    t = init_sig_tree(c0['sig'], S)
+    add([3, enc_sig(c0['sig'])], t, dict(kind='signature', sig=c0['sig'], via='subclassed', annotated=True))
+    ctx.count(('sig-subclassed', sig_key(c0['sig'])), nontrivial=bool(c0['sig']['pos']), kind='signature')
   # (C) functors, (D) classes, (E) the effective call of the specification side
   fcases, ccases = [], []
   per_sig = ctx.scale(24, 400)
@@ -755,8 +787,11 @@ def run(ctx):
     for _ in range(4):
       ccases.append(gen_subclass_case(rng, 'p%d' % i, sigb, sigd, order))
     ctx.hist('inheritance_order', order)
+  # (H) subclassed functors: pg.Functor subclasses with fields and _call (call-time arguments override the members _call reads)
+  for _ in range(ctx.scale(600, 12000)):
+    fcases.append(gen_subclassed_case(rng))
   for c in fcases:
-    if rng.random() < .1: c['annotated'] = all(isinstance(v, int) for v in c['ctor'][0] + [v for _, v in c['ctor'][1] + c['lates'] + c['call'][1]] + c['call'][0]
+    if c['kind'] != 'subclassed' and rng.random() < .1: c['annotated'] = all(isinstance(v, int) for v in c['ctor'][0] + [v for _, v in c['ctor'][1] + c['lates'] + c['call'][1]] + c['call'][0]
                                                  if True) and not any(k == c['sig']['varargs'] for k, _ in c['ctor'][1] + c['lates'])
   hits_before = len(ctx.hits)
   def hitter(case):
@@ -779,7 +814,7 @@ def run(ctx):
     ctx.hist('signature_shape', '%dpos%s%s %dkwonly%s' % (len(c['sig']['pos']), '(%d/)' % c['sig']['posonly'] if c['sig'].get('posonly') else '', '+*' if c['sig']['varargs'] else '', len(c['sig']['kwonly']), '+**' if c['sig']['varkw'] else ''))
     oracle_functor(ctx, c, out, hitter(c))
     # the same case with run-time type checking switched off must behave the same (arguments are untyped)
-    if not c.get('annotated') and not any(k == c['sig']['varargs'] and not isinstance(v, list) for k, v in c['ctor'][1] + c['lates']) and rng.random() < .35:
+    if c['kind'] != 'subclassed' and not c.get('annotated') and not any(k == c['sig']['varargs'] and not isinstance(v, list) for k, v in c['ctor'][1] + c['lates']) and rng.random() < .35:
       n_tc += 1
       h = typecheck_variant_hit(c, out)
       if h: ctx.hit(h[0], h[1], dict(op='case', case=c, typecheck=False))
@@ -811,7 +846,7 @@ def run(ctx):
     for i in bad[:2000]:
       d = descr[i]
       c = d['case'] if d.get('kind') == 'effective' else d
-      if c.get('kind') in ('functor', 'symbolize'):
+      if c.get('kind') in ('functor', 'symbolize', 'subclassed'):
         for _ in range(20):
           c2 = dict(c); c2['call'] = gen_supply(rng, c['sig'], False); c2['post'] = rng.choice([0, 1, 2])
           out, x = run_functor_impl(c2)
